@@ -437,6 +437,30 @@ async fn tcp_case(dialed: &str, form: &str) -> Option<TcpResult> {
     Some((result, listener))
 }
 
+/// The same expectation evaluated by calling the real `negotiate_connection` directly on both ends
+/// of a loopback TCP connection (dialer with `Some(expected)`, listener with `None`): observes the
+/// comparison itself, independent of what the connection manager does with the result.
+async fn negotiate_case(dialed: &str, form: &str) -> Option<TcpResult> {
+    let (ka, kb, kc) = (Keypair::generate(), Keypair::generate(), Keypair::generate());
+    let keys = Keys { a: ka.clone(), b: kb.clone(), r: kc.clone() };
+    let expected = peer_id_in_form(if dialed == "B" { &kb } else { &kc }, form);
+    let listener = tokio::net::TcpListener::bind("127.0.0.1:0").await.ok()?;
+    let addr = listener.local_addr().ok()?;
+    let (c, s) = tokio::join!(tokio::net::TcpStream::connect(addr), listener.accept());
+    let (c, (s, from)) = (c.ok()?, s.ok()?);
+    let t = Duration::from_secs(60);
+    let (rd, rl) = tokio::join!(
+        tcp_negotiate_connection(c, Some(expected), ka, Role::Dialer, addr, t),
+        tcp_negotiate_connection(s, None, kb, Role::Listener, from, t)
+    );
+    let d = match rd {
+        Ok(peer) => ("ok".to_string(), name_of(&peer.to_bytes(), &keys).to_string(), String::new()),
+        Err(NegotiationError::Timeout) => return None, // machine stalled: not a verdict
+        Err(e) => ("err".to_string(), String::new(), format!("{e:?}").chars().take(80).collect()),
+    };
+    Some((d, rl.ok().map(|p| name_of(&p.to_bytes(), &keys).to_string())))
+}
+
 fn main() {
     let args = Args::parse();
     quiet_panics();
@@ -487,13 +511,16 @@ fn main() {
         for b in &tcp {
             let dialed = b["sc"]["dialed"].as_str().unwrap().to_string();
             let form = b["sc"]["dialedForm"].as_str().unwrap().to_string();
-            for _ in 0..reps {
+            for rep in 0..2 * reps {
+                // alternate: two full Litep2p nodes / the bare negotiate_connection on both ends
+                let via = if rep % 2 == 0 { "tcp" } else { "negotiate" };
                 let mut got = None;
                 for _attempt in 0..3 {
                     // a fresh runtime per case; a panic of the code under test (e.g. a debug assertion in the
                     // connection manager) is an outcome, not a harness crash
                     let rt = tokio::runtime::Builder::new_multi_thread().worker_threads(2).enable_all().build().unwrap();
-                    got = match catch(|| rt.block_on(tcp_case(&dialed, &form))) {
+                    let run = || if via == "tcp" { rt.block_on(tcp_case(&dialed, &form)) } else { rt.block_on(negotiate_case(&dialed, &form)) };
+                    got = match catch(run) {
                         Ok(g) => g,
                         Err(p) => Some((("panic".to_string(), String::new(), p.chars().take(80).collect()), None)),
                     };
@@ -505,12 +532,12 @@ fn main() {
                 }
                 let Some(((outcome, peer, kind), listener)) = got else { continue };
                 tcp_runs += 1;
-                *outcomes.entry(format!("{outcome}_tcp_{dialed}_{form}")).or_default() += 1;
-                lines.push(json!({"e": "hs", "sc": b["sc"], "conc": {"via": "tcp"}, "role": "dialer", "outcome": outcome, "peer": peer,
+                *outcomes.entry(format!("{outcome}_{via}_{dialed}_{form}")).or_default() += 1;
+                lines.push(json!({"e": "hs", "sc": b["sc"], "conc": {"via": via}, "role": "dialer", "outcome": outcome, "peer": peer,
                     "kind": kind, "exp": b["exp"]["dialer"]}).to_string());
                 if let Some(lp) = listener {
-                    *outcomes.entry("ok_tcp_listener".to_string()).or_default() += 1;
-                    lines.push(json!({"e": "hs", "sc": b["sc"], "conc": {"via": "tcp"}, "role": "listener", "outcome": "ok", "peer": lp,
+                    *outcomes.entry(format!("ok_{via}_listener")).or_default() += 1;
+                    lines.push(json!({"e": "hs", "sc": b["sc"], "conc": {"via": via}, "role": "listener", "outcome": "ok", "peer": lp,
                         "kind": "", "exp": b["exp"]["listener"]}).to_string());
                 }
             }
